@@ -44,7 +44,9 @@ func (d *slidingWindowDetector) Check(seq uint64) (func() bool, bool) {
 	}
 
 	if seq <= d.latestSeq {
-		if d.latestSeq >= uint64(d.windowSize)+seq {
+		// seq <= latestSeq here: the distance cannot wrap around, whereas
+		// windowSize+seq does for sequence numbers close to 2^64.
+		if d.latestSeq-seq >= uint64(d.windowSize) {
 			return nop, false
 		}
 		if d.mask.Bit(uint(d.latestSeq-seq)) != 0 {
